@@ -283,3 +283,27 @@ func VP_C02_concurrent_presentations() {
 	}
 	vpAssert(shownRevoked, "every-cookies-own-access-token-is-shown-to-the-provider")
 }
+
+
+//vp:property C02 C12
+//vp:bounds a session whose access token is long (6000 bytes: an identity provider that packs group claims into it) downloads a connection file: the minted cookie still embeds that access token, so that the identity provider is asked about it at every presentation
+//vp:assume the serialised token is at least as long as the claims it carries (go-jose contract)
+//vp:reach minted
+func VP_C02_mint_long_access_token() {
+	vpResetJose()
+	vpSetKeys()
+	at := make([]byte, 6000)
+	for i := range at {
+		at[i] = 'a'
+	}
+	id := identity.NewUser()
+	id.SetAttribute(identity.AttrClientIp, "ip")
+	id.SetAttribute(identity.AttrAccessToken, string(at))
+	tok, err := GeneratePAAToken(vpCtxWith(nil, id), "u", "h")
+	if err != nil {
+		vpAssert(tok == "", "failed-mint-returns-no-token")
+		return
+	}
+	vpReach("minted")
+	vpAssert(vpMintPrivate != nil && vpMintPrivate.AccessToken == string(at), "minted-cookie-embeds-the-sessions-access-token-whatever-its-length")
+}
